@@ -101,3 +101,124 @@ func c13foreign(c *core.Ctx, r *core.Reporter) {
 		}
 	}
 }
+
+// c13owner: every ownership test of the package code (C13.push, C13.retract, C13.foreign) compares an
+// entry's Pkg field with a package. An entry created without an owner fails all of them: before a7507bd the
+// placeholder Export makes for a variable that is exported before it is defined had none, and unexport /
+// makunbound never retracted it from the users. The rule: every entry (VarVal, FuncInfo) created in a function
+// of package slip and stored into a vars or funcs table has its Pkg field assigned in that function.
+func c13owner(c *core.Ctx, r *core.Reporter) {
+	const rule = "C13.owner"
+	r.Rule(rule, "every VarVal or FuncInfo created in a function of package slip and stored into a package's vars or funcs table has its Pkg field assigned there: the ownership tests that keep visibility coherent compare that field", 8)
+	var fns []*ssa.Function
+	for _, fn := range c.ModuleFuncs() {
+		p := fn.Pkg
+		if p == nil && fn.Parent() != nil {
+			p = fn.Parent().Pkg
+		}
+		if p != nil && p.Pkg.Path() == core.SlipPath {
+			fns = append(fns, fn)
+		}
+	}
+	sort.Slice(fns, func(i, j int) bool { return core.SSAName(fns[i]) < core.SSAName(fns[j]) })
+	for _, fn := range fns {
+		n := 0
+		for _, b := range fn.Blocks {
+			for _, in := range b.Instrs {
+				mu, ok := in.(*ssa.MapUpdate)
+				if !ok {
+					continue
+				}
+				_, field, ok := tableOf(mu.Map)
+				if !ok {
+					continue
+				}
+				// fresh entries: an allocation in this function or the result of a constructor call of package slip
+				var entry ssa.Value
+				switch x := mu.Value.(type) {
+				case *ssa.Alloc:
+					entry = x
+				case *ssa.Call:
+					if cal := x.Call.StaticCallee(); cal != nil && cal.Pkg != nil && cal.Pkg.Pkg.Path() == core.SlipPath {
+						entry = x
+					}
+				}
+				if entry == nil {
+					continue
+				}
+				n++
+				assigned := false
+				if entry.Referrers() != nil {
+					for _, ref := range *entry.Referrers() {
+						fa, ok := ref.(*ssa.FieldAddr)
+						if !ok || fieldName(fa) != "Pkg" || fa.Referrers() == nil {
+							continue
+						}
+						for _, r2 := range *fa.Referrers() {
+							if st, ok := r2.(*ssa.Store); ok && st.Addr == ssa.Value(fa) {
+								if cst, isC := st.Val.(*ssa.Const); !isC || !cst.IsNil() {
+									assigned = true
+								}
+							}
+						}
+					}
+				}
+				// built as a composite literal and copied into the allocation: the literal's Pkg field
+				if al, ok := entry.(*ssa.Alloc); ok && !assigned {
+					for _, ref := range *al.Referrers() {
+						st, ok := ref.(*ssa.Store)
+						if !ok || st.Addr != ssa.Value(al) {
+							continue
+						}
+						if ld, ok := st.Val.(*ssa.UnOp); ok {
+							if lit, ok := ld.X.(*ssa.Alloc); ok {
+								for _, r2 := range *lit.Referrers() {
+									if fa, ok := r2.(*ssa.FieldAddr); ok && fieldName(fa) == "Pkg" && fa.Referrers() != nil {
+										for _, r3 := range *fa.Referrers() {
+											if s3, ok := r3.(*ssa.Store); ok && s3.Addr == ssa.Value(fa) {
+												assigned = true
+											}
+										}
+									}
+								}
+							}
+						}
+					}
+				}
+				// assigned afterwards for every entry of the table: a loop over the same table storing Pkg
+				if !assigned {
+					for _, b2 := range fn.Blocks {
+						for _, in2 := range b2.Instrs {
+							st, ok := in2.(*ssa.Store)
+							if !ok {
+								continue
+							}
+							if fa, ok := st.Addr.(*ssa.FieldAddr); ok && fieldName(fa) == "Pkg" {
+								if o, f := entrySource(fa.X, 0); o != nil && f == field {
+									if ow, _, ok := tableOf(mu.Map); ok && sameValue(o, ow) && reachesInstr(mu, st) {
+										assigned = true
+									}
+								}
+							}
+						}
+					}
+				}
+				// a constructor that assigns it itself
+				if call, ok := entry.(*ssa.Call); ok && !assigned {
+					if cal := call.Call.StaticCallee(); cal != nil {
+						for _, cb := range cal.Blocks {
+							for _, cin := range cb.Instrs {
+								if st, ok := cin.(*ssa.Store); ok {
+									if fa, ok := st.Addr.(*ssa.FieldAddr); ok && fieldName(fa) == "Pkg" {
+										assigned = true
+									}
+								}
+							}
+						}
+					}
+				}
+				r.Decide(assigned, rule, fmt.Sprintf("%s|new entry #%d in %s", core.SSAName(fn), n, field), c.Pos(mu.Pos()), fmt.Sprintf("the new entry's Pkg is assigned before it is stored in the table: %v", assigned))
+			}
+		}
+	}
+}
